@@ -119,7 +119,10 @@ def stepJ (j : J) (sc : List String × List String) : J :=
     let nf := (fn.drop 1).toString.toNat?.getD 0
     let ids := (List.range nf).map fun i => toString (i + j.nextId)
     let h := parseHOut ((kvOf rest "h").getD "ok")
-    let j' := { j with nextId := j.nextId + nf, idx := j.idx + 1 }
+    -- `bf<n>`: descriptors attached to the last segment, i.e. not to the first byte of the message
+    let nb := if (hex.splitOn "+").length > 1 then
+      ((rest.find? (·.startsWith "bf")).bind fun t => (t.drop 2).toString.toNat?).getD 0 else 0
+    let j' := { j with nextId := j.nextId + nf + nb, idx := j.idx + 1 }
     match parseObs ob with
     | none => if ob == ["L=-"] then j' else { j' with err := some s!"unparsable-observation step={j.idx}" }
     | some o =>
@@ -142,11 +145,14 @@ def stepJ (j : J) (sc : List String × List String) : J :=
       else
       if !j.alignedSoFar || bytes.length < 12 then { j' with alignedSoFar := false } else
       let (code, flags, size) := hdrOf bytes
-      let req : Req := ⟨code, flags, size, bytes.drop 12, nf⟩
+      let req : Req := ⟨code, flags, size, bytes.drop 12, nf + nb⟩
+      -- descriptors in the middle of a message: the request carries nf+nb descriptors; when that is a valid count for
+      -- it the outcome is not specified (they are not where the protocol puts them), otherwise it must be refused
+      if nb > 0 && classify j.neg req != .reject then { j' with alignedSoFar := false } else
       match judge j.neg req h ids o with
       | some e => { j' with err := some s!"{e} step={j.idx}" }
       | none =>
-        let al := aligned req && nf ≤ 32 && (nf == 0 || req.size == 0 || [5, 13, 12, 14, 6, 7, 21, 32, 37, 42, 33].contains code)
+        let al := aligned req && nb == 0 && nf ≤ 32 && (nf == 0 || req.size == 0 || [5, 13, 12, 14, 6, 7, 21, 32, 37, 42, 33].contains code)
         let neg' := if classify j.neg req == .accept then updateNeg j.neg req h else j.neg
         -- a request the Spec does not classify as accepted may still have changed the server's state: stop judging C04/C07
         let stillKnown := classify j.neg req != .unspecified || ![1, 2, 16].contains code
